@@ -264,7 +264,7 @@ func (b *Broker) Deny(ctx context.Context, id string, topic string) {
 		} else {
 			topics.Range(func(key, _ interface{}) bool {
 				topics.Store(key, nil)
-				return false
+				return true
 			})
 		}
 		b.response(ctx, id)
